@@ -299,10 +299,23 @@ def const_bodies(crate):
 
 
 def returned_closure(v):
+    """The closure a factory returns: the tail expression of its body, possibly behind leading statements
+    (`let a = ..; let b = ..; move |input| ..`). The returned node is the closure; when statements precede it, its `body`
+    is wrapped so that they are evaluated first (they bind what the closure captures)."""
     x = v
-    while x.get("k") == "Block" and not x["stmts"] and x.get("expr"):
+    pre = []
+    while x.get("k") == "Block" and x.get("expr"):
+        pre += x["stmts"]
         x = x["expr"]
-    return x if x.get("k") == "Closure" else None
+        while x.get("k") in ("DropTemps", "Use"):
+            x = x["e"]
+    if x.get("k") != "Closure":
+        return None
+    if not pre:
+        return x
+    c = dict(x)
+    c["body"] = {"k": "Block", "stmts": pre, "expr": x["body"], "sp": x.get("sp"), "ty": x["body"].get("ty")}
+    return c
 
 
 def parent_map(root):
